@@ -126,6 +126,7 @@ type nodeWorld struct {
 	msgSeq   int
 	sent     map[string]*pb.Message // messages sent by fakes, by id
 	sentBy   map[string]map[peer.ID]bool
+	sentAt   map[string]time.Duration // first time a message id was sent by a scripted peer
 	extraOps map[string]func(it Item)
 
 	teeTracers func(mem EventTracer) EventTracer
@@ -193,7 +194,7 @@ func gsParamsFromPlan(p *Plan) GossipSubParams {
 
 func newNodeWorld(s *sim) *nodeWorld {
 	p := s.plan
-	w := &nodeWorld{s: s, plan: p, fakes: map[int]*fakePeer{}, appScore: map[peer.ID]float64{}, sent: map[string]*pb.Message{}, sentBy: map[string]map[peer.ID]bool{}, extraOps: map[string]func(Item){}, localMids: map[string]string{}, localDelivered: map[string]int{}, lastDisconnect: map[peer.ID]time.Duration{}, streamsGoneAt: map[peer.ID]time.Duration{}}
+	w := &nodeWorld{s: s, plan: p, fakes: map[int]*fakePeer{}, appScore: map[peer.ID]float64{}, sent: map[string]*pb.Message{}, sentBy: map[string]map[peer.ID]bool{}, sentAt: map[string]time.Duration{}, extraOps: map[string]func(Item){}, localMids: map[string]string{}, localDelivered: map[string]int{}, lastDisconnect: map[peer.ID]time.Duration{}, streamsGoneAt: map[peer.ID]time.Duration{}}
 	w.keyRng = newPrng(p.Seed, "keys")
 	nt := p.ki("ntopics", 1)
 	for i := 0; i < nt; i++ {
@@ -801,6 +802,7 @@ func (w *nodeWorld) noteSentBy(fp *fakePeer, m *pb.Message) {
 	id := midOf(m)
 	if w.sentBy[id] == nil {
 		w.sentBy[id] = map[peer.ID]bool{}
+		w.sentAt[id] = w.s.now()
 	}
 	w.sentBy[id][fp.id] = true
 }
